@@ -23,6 +23,7 @@ var importUVWorkerPool sync.Pool
 
 func getImportUVWorker(padW, uvWidth int) *importUVWorker {
 	if v := importUVWorkerPool.Get(); v != nil {
+		verifhook.Pool("lossy.importUVWorkerPool", true)
 		wk := v.(*importUVWorker)
 		if cap(wk.rowR[0]) >= padW && cap(wk.tmpRGB) >= uvWidth*4 {
 			return wk
@@ -461,6 +462,7 @@ func NewEncoder(img image.Image, cfg EncodeConfig) *VP8Encoder {
 	if v := encoderPool.Get(); v != nil {
 		enc := v.(*VP8Encoder)
 		if enc.mbW == mbW && enc.mbH == mbH {
+			verifhook.Pool("lossy.encoderPool", true)
 			enc.resetForReuse(cfg, w, h)
 			enc.importImage(img)
 			enc.initSegments()
@@ -506,6 +508,7 @@ func NewEncoderFromYUV(yuv *image.YCbCr, width, height int, cfg EncodeConfig) *V
 	if v := encoderPool.Get(); v != nil {
 		enc := v.(*VP8Encoder)
 		if enc.mbW == mbW && enc.mbH == mbH {
+			verifhook.Pool("lossy.encoderPool", true)
 			enc.resetForReuse(cfg, width, height)
 			enc.importYCbCr(yuv)
 			enc.initSegments()
@@ -758,6 +761,7 @@ func (enc *VP8Encoder) importImage(img image.Image) {
 	if isDirect && rg == nil {
 		// Fast parallel path for non-dithered direct pixel access (NRGBA/RGBA).
 		nWorkers := runtime.GOMAXPROCS(0)
+		nWorkers = verifhook.Workers("lossy.importY", nWorkers)
 		if nWorkers > padH {
 			nWorkers = padH
 		}
@@ -837,6 +841,7 @@ func (enc *VP8Encoder) importImage(img image.Image) {
 	if isDirect && rg == nil {
 		// Fast parallel path for non-dithered direct pixel access (NRGBA/RGBA).
 		nUVWorkers := runtime.GOMAXPROCS(0)
+		nUVWorkers = verifhook.Workers("lossy.importUV", nUVWorkers)
 		if nUVWorkers > halfPadH {
 			nUVWorkers = halfPadH
 		}
